@@ -18,6 +18,7 @@ import (
 	"strings"
 	"sync"
 	"sync/atomic"
+	"syscall"
 	"time"
 
 	"verif/sim/kernel"
@@ -204,8 +205,14 @@ func runJob(scratch string, id int, job worker.Job, pi *propInfo, perRunTimeout 
 					lastMark, lastChange = string(mb), time.Now()
 				} else if time.Since(lastChange) > perRunTimeout {
 					hung = true
-					_ = cmd.Process.Kill()
-					werr = <-done
+					// ask the Go runtime for all goroutine stacks (it prints them and exits), then make sure
+					_ = cmd.Process.Signal(syscall.SIGQUIT)
+					select {
+					case werr = <-done:
+					case <-time.After(10 * time.Second):
+						_ = cmd.Process.Kill()
+						werr = <-done
+					}
 					break wait
 				}
 			}
@@ -232,6 +239,14 @@ func runJob(scratch string, id int, job worker.Job, pi *propInfo, perRunTimeout 
 		var v *kernel.Violation
 		switch {
 		case hung:
+			if fn, excerpt, ok := sutBlockedForever(tail); ok {
+				// A goroutine of the system under test is blocked - for good - on something the simulator
+				// does not control (a package-level channel, mutex or semaphore): the simulated world
+				// cannot go on, and neither could a real server's request.
+				v = &kernel.Violation{Property: job.Property, Oracle: job.Property + ".every-call-returns", Fingerprint: "hang/" + fn,
+					Message: fmt.Sprintf("no progress for %v of wall clock: a goroutine is blocked in %s on a synchronisation object outside the simulated world\n%s", perRunTimeout, fn, excerpt)}
+				break
+			}
 			return nil, fmt.Errorf("worker %d: run %d exceeded the per-run wall-clock cap of %v (watchdog)", id, idx, perRunTimeout)
 		case strings.Contains(tail, "WARNING: DATA RACE") && harnessOnlyRace(tail):
 			return nil, fmt.Errorf("worker %d: data race between two accesses of the harness itself (not a verdict about orda):\n%s", id, firstLines(raceBlock(tail), 30))
@@ -320,6 +335,58 @@ func runJob(scratch string, id int, job worker.Job, pi *propInfo, perRunTimeout 
 		}
 	}
 	return out, fmt.Errorf("worker %d: too many crashes", id)
+}
+
+var gHeader = regexp.MustCompile(`(?m)^goroutine \d+ [^\[]*\[([^\]]*)\]:$`)
+
+// sutBlockedForever reads a goroutine dump taken when a run made no progress. In a synctest bubble every
+// wait the simulator knows about is marked "(durable)"; a bubble goroutine that waits on a channel,
+// mutex, semaphore or condition WITHOUT that mark waits on an object from outside the bubble, which
+// nobody inside can ever signal in simulated time. If the innermost frame outside the Go runtime of
+// such a goroutine is orda code, the system under test has hung itself.
+func sutBlockedForever(dump string) (string, string, bool) {
+	locs := gHeader.FindAllStringSubmatchIndex(dump, -1)
+	for i, l := range locs {
+		state := dump[l[2]:l[3]]
+		if !strings.Contains(state, "synctest bubble") || strings.Contains(state, "(durable)") {
+			continue
+		}
+		blocking := false
+		for _, w := range []string{"chan send", "chan receive", "select", "semacquire", "sync.Mutex", "sync.RWMutex", "sync.Cond", "sync.WaitGroup"} {
+			if strings.HasPrefix(state, w) {
+				blocking = true
+			}
+		}
+		if !blocking {
+			continue
+		}
+		end := len(dump)
+		if i+1 < len(locs) {
+			end = locs[i+1][0]
+		}
+		block := dump[l[0]:end]
+		for _, ln := range strings.Split(block, "\n")[1:] {
+			t := strings.TrimSpace(ln)
+			if t == "" || strings.HasPrefix(t, "/") || strings.HasPrefix(t, "runtime.") || strings.HasPrefix(t, "sync.") || strings.HasPrefix(t, "internal/") ||
+				strings.HasPrefix(t, "golang.org/x/sync/") || strings.HasPrefix(t, "created by ") {
+				continue
+			}
+			if strings.HasPrefix(t, "github.com/orda-io/orda/") && !strings.HasPrefix(t, "github.com/orda-io/orda/client/pkg/simhook.") {
+				fn := t
+				if j := strings.Index(fn, "("); j > 0 {
+					if k := strings.LastIndex(fn[:strings.LastIndex(fn, "(")], "/"); k >= 0 {
+						fn = fn[k+1:]
+					}
+				}
+				if j := strings.LastIndex(fn, "("); j > 0 {
+					fn = fn[:j]
+				}
+				return fn, firstLines(block, 14), true
+			}
+			break // the innermost frame is the harness or a dependency: not a verdict about orda
+		}
+	}
+	return "", "", false
 }
 
 func raceBlock(s string) string {
@@ -881,7 +948,10 @@ func runEngine(pi *propInfo, prop, tier string, seed int64, workers, budget, max
 		fmt.Printf("violation class %s: %d runs; first at run %d (seed %d): %s\n", k, counts[k], f.idx, f.seed, f.v.Message)
 		plan, out := f.plan, f.out
 		orig := len(plan.Events)
-		if os.Getenv("VERIF_NO_SHRINK") == "" {
+		if strings.Contains(k, "|hang/") {
+			// every candidate of a shrink would cost a full watchdog period: the plan is kept as it is
+			fmt.Printf("  not minimised (each candidate execution would wait for the %v watchdog)\n", pi.perRun())
+		} else if os.Getenv("VERIF_NO_SHRINK") == "" {
 			sh := &shrinker{scratch: scratch, pi: pi, key: k, known: knownKeys, start: time.Now(), budgetN: 600, budgetT: 150 * time.Second}
 			small := sh.ddmin(plan)
 			small = sh.simplify(small)
